@@ -150,6 +150,9 @@ def seeded(rng, alphabet, weights=None, max_len=12, ids=None, progress_p=0.5, ca
         case["pre"] = True
     elif r < cancel_p + 0.1:
         case["hasToken"] = True
+    if rng.random() < 0.15:
+        # the peer closes its end / stops reading after the request has been written
+        case["writer"] = rng.choice(["closed", "blocked"])
     if case["progress"] and rng.random() < 0.3:
         case["cbRaises"] = sorted(set(rng.randint(0, 4) for _ in range(rng.randint(1, 3))))
     return place(case)
@@ -162,7 +165,7 @@ def shrink_candidates(case):
         c = dict(case)
         c["ev"] = ev[:i] + ev[i + 1:]
         yield c
-    for key in ("cbRaises", "hasToken", "params"):
+    for key in ("cbRaises", "hasToken", "params", "writer"):
         if case.get(key):
             c = dict(case)
             c.pop(key)
